@@ -66,7 +66,7 @@ class GeneralGlobalCipher(AbstractXDlmsApdu):
     def to_bytes(self) -> bytes:
         out = bytearray()
         out.append(self.TAG)
-        out.append(len(self.system_title))
+        out.extend(a_xdr.encode_variable_integer(len(self.system_title)))
         out.extend(self.system_title)
         out.extend(
             a_xdr.encode_variable_integer(
